@@ -779,15 +779,22 @@ class Check(PropertyCheck):
 
     def _wire_case(self, rng):
         client = rng.randint(0, 1)            # role of the receiver; the sender masks iff the receiver is the server
-        frames, open_msg, valid, mtext = [], False, True, False
+        frames, open_msg, valid, mtext, tbuf = [], False, True, False, b""
         for _ in range(rng.randint(1, 4)):
             q = rng.random()
             n = rng.pick([0, 1, 5, 124, 125, 126, 127, 300]) if rng.chance(0.85) else rng.pick([65535, 65536, 70000])
             if q < 0.65:
                 op = 0 if open_msg else rng.pick([1, 2]); fin = int(rng.chance(0.6)); open_msg = not fin
-                if op: mtext = op == 1
-                p = (b"a\xc3\xa9" * (n // 3 + 1))[:n] if mtext else rng.bytes_(min(n, 40)) + b"\x00" * max(0, n - 40)
-                if mtext: p = p.decode("utf-8", "ignore").encode()
+                if op:
+                    mtext = op == 1
+                    # a text message is valid as a whole; its frames are cut at arbitrary byte positions, also inside
+                    # characters (ties the transcription of wsproto's incremental decoder, `frameEventU`)
+                    tbuf = ((b"a\xc3\xa9\xe2\x82\xac\xf0\x9f\x98\x80" * (n // 10 + 1))[:n]).decode("utf-8", "ignore").encode()
+                if mtext:
+                    c = len(tbuf) if fin else rng.randint(0, len(tbuf))
+                    p, tbuf = tbuf[:c], tbuf[c:]
+                else:
+                    p = rng.bytes_(min(n, 40)) + b"\x00" * max(0, n - 40)
             else:
                 op = rng.pick([8, 9, 10]); fin = 1; n = min(n, 125)
                 p = (struct.pack("!H", rng.pick([1000, 1001, 1011, 3000, 4999, 999, 1005, 1016, 2999, 5000])) + b"bye")[: max(2, n)] if op == 8 else rng.bytes_(min(n, 20))
